@@ -197,4 +197,106 @@ theorem complete_iff_partial (c : Cfg) (o : POpts) (s : List Nat) (p : Parsed) (
     obtain ⟨rfl, hc⟩ := (agree_iff s.length q p).mp hm
     exact complete_of_partial c o s true q hq hc
 
+/-! ## (A) negation witnesses — each is a disagreement of the library (model tied to the Rust by correspondence) -/
+
+/-- feature sets / formats of the witnesses (raw values as in `harness/formats.txt`) -/
+def featsRadixFormat : Features := { radix := true, powerOfTwo := true, format := true }
+def featsRadix : Features := { radix := true, powerOfTwo := true }
+def fmtNoMantissaDigits : Format := ⟨0xa0a0a00000000000000000000000004⟩   -- flag_no_required_mantissa_digits
+def fmtRadix20 : Format := ⟨0x1414140000000000000000000000000c⟩
+def fmtRadix24 : Format := ⟨0x1818180000000000000000000000000c⟩
+def fmtRadix30 : Format := ⟨0x1e1e1e0000000000000000000000000c⟩
+def fmtSepIHexfloatPrefix : Format := ⟨0xa0210007800005f000000070000000c⟩  -- sep_i_hexfloat_prefix
+
+/-- (i) mantissa digits not required: complete "NaN" = NaN, partial "NaN" = (0.0, 0) -/
+theorem witness_A_nodigits_nan :
+    parseFloatModel featsRadixFormat fmtNoMantissaDigits {} false f64 [78, 97, 78] = "ok nan -" ∧
+    parseFloatModel featsRadixFormat fmtNoMantissaDigits {} true f64 [78, 97, 78] = "ok 0 0" := by decide +kernel
+
+/-- (i) complete "-inf" = -inf, partial "-inf" = (-0.0, 1) -/
+theorem witness_A_nodigits_neginf :
+    parseFloatModel featsRadixFormat fmtNoMantissaDigits {} false f64 [45, 105, 110, 102] = "ok fff0000000000000 -" ∧
+    parseFloatModel featsRadixFormat fmtNoMantissaDigits {} true f64 [45, 105, 110, 102] = "ok 8000000000000000 1" := by
+  decide +kernel
+
+/-- (ii) radix 20 (no `format` feature; exponent character '^'): complete "inf" = inf, partial "inf" = (18.0, 1):
+'i' = 18 is a digit, 'n' = 23 is not -/
+theorem witness_A_radix20_inf :
+    parseFloatModel featsRadix fmtRadix20 { exp := 94 } false f64 [105, 110, 102] = "ok 7ff0000000000000 -" ∧
+    parseFloatModel featsRadix fmtRadix20 { exp := 94 } true f64 [105, 110, 102] = "ok 4032000000000000 1" := by
+  decide +kernel
+
+/-- (ii) radix 30: complete "infinity" = inf, partial "infinity" = (13693557269.0, 7): 'y' = 34 is not a digit -/
+theorem witness_A_radix30_infinity :
+    parseFloatModel featsRadix fmtRadix30 { exp := 94 } false f64 [105, 110, 102, 105, 110, 105, 116, 121]
+      = "ok 7ff0000000000000 -" ∧
+    parseFloatModel featsRadix fmtRadix30 { exp := 94 } true f64 [105, 110, 102, 105, 110, 105, 116, 121]
+      = "ok 42098198d0a80000 7" := by
+  decide +kernel
+
+/-- the same radix-20 witness on the syntax layer -/
+theorem witness_A_radix20_syntax :
+    parseFloatSyntax ⟨featsRadix, fmtRadix20, false⟩ { exp := 94 } false [105, 110, 102] = .ok (.special .inf false 3) ∧
+    parseFloatSyntax ⟨featsRadix, fmtRadix20, false⟩ { exp := 94 } true [105, 110, 102]
+      = .ok (.number ⟨18, 0, false, false, [105], none, 0⟩ 1) := by decide +kernel
+
+/-- C11 (A) as stated is false (valid format, valid options) -/
+theorem not_complete_iff_partial_full : ¬ complete_iff_partial_full := by
+  intro h
+  obtain ⟨q, hq, hm⟩ := (h ⟨featsRadix, fmtRadix20, false⟩ { exp := 94 } [105, 110, 102] (.special .inf false 3)).mp
+    witness_A_radix20_syntax.1
+  rw [witness_A_radix20_syntax.2] at hq
+  cases hq
+  exact hm
+
+/-- the witness formats/options are valid (the API does not reject them) -/
+example : formatError featsRadix fmtRadix20 = none ∧ isValidOptionsPunctuation featsRadix fmtRadix20 94 46 = true ∧
+    formatError featsRadixFormat fmtNoMantissaDigits = none ∧
+    formatError featsRadixFormat fmtSepIHexfloatPrefix = none ∧ formatError featsRadix fmtRadix24 = none := by
+  decide +kernel
+
+/-! ## (B) `partial_prefix` -/
+
+/-- C11 (B), full statement: a successful partial parse with a positive count is reproduced by the complete parser
+on exactly the consumed prefix -/
+def partial_prefix_full : Prop :=
+  ∀ (c : Cfg) (o : Spec.POpts) (s : List Nat) (p : Parsed),
+    parseFloatSyntax c o true s = .ok p → pcount p > 0 →
+      parseFloatSyntax c o false (s.take (pcount p)) = .ok p
+
+/-- (i) mantissa digits not required: partial "-+" = (-0.0, 1) but complete "-" = +0.0 -/
+theorem witness_B_nodigits_sign :
+    parseFloatModel featsRadixFormat fmtNoMantissaDigits {} true f64 [45, 43] = "ok 8000000000000000 1" ∧
+    parseFloatModel featsRadixFormat fmtNoMantissaDigits {} false f64 [45] = "ok 0 -" := by decide +kernel
+
+/-- (ii) `sep_i_hexfloat_prefix` (radix 16, exponent radix 10, exponent-internal '_'): partial "1p1_a" = (2.0, 4) — the
+internal-separator look-ahead accepts `_` because the *mantissa*-radix digit 'a' follows — but complete "1p1_" fails -/
+theorem witness_B_hexfloat_sep :
+    parseFloatModel featsRadixFormat fmtSepIHexfloatPrefix { exp := 112 } true f64 [49, 112, 49, 95, 97]
+      = "ok 4000000000000000 4" ∧
+    parseFloatModel featsRadixFormat fmtSepIHexfloatPrefix { exp := 112 } false f64 [49, 112, 49, 95]
+      = "err InvalidDigit 3" := by decide +kernel
+
+/-- (iii) radix ≥ 24, no `format` feature needed: partial "nan^" = (NaN, 3) — `parse_number` reads the digits n,a,n, then
+the exponent character with no exponent digits: `EmptyExponent`, fall back to the specials — but complete "nan" is the
+number 13511 -/
+theorem witness_B_radix24_nan :
+    parseFloatModel featsRadix fmtRadix24 { exp := 94 } true f64 [110, 97, 110, 94] = "ok nan 3" ∧
+    parseFloatModel featsRadix fmtRadix24 { exp := 94 } false f64 [110, 97, 110] = "ok 40ca638000000000 -" := by
+  decide +kernel
+
+theorem witness_B_radix24_syntax :
+    parseFloatSyntax ⟨featsRadix, fmtRadix24, false⟩ { exp := 94 } true [110, 97, 110, 94] = .ok (.special .nan false 3) ∧
+    parseFloatSyntax ⟨featsRadix, fmtRadix24, false⟩ { exp := 94 } false [110, 97, 110]
+      = .ok (.number ⟨13511, 0, false, false, [110, 97, 110], none, 0⟩ 3) := by decide +kernel
+
+/-- C11 (B) as stated is false (valid format, valid options, no `format` feature) -/
+theorem not_partial_prefix_full : ¬ partial_prefix_full := by
+  intro h
+  have := h ⟨featsRadix, fmtRadix24, false⟩ { exp := 94 } [110, 97, 110, 94] (.special .nan false 3)
+    witness_B_radix24_syntax.1 (by decide)
+  rw [show List.take (pcount (.special .nan false 3)) [110, 97, 110, 94] = [110, 97, 110] by decide,
+    witness_B_radix24_syntax.2] at this
+  cases this
+
 end LexVerif.Props.C11
